@@ -62,13 +62,15 @@ static void remove_sent (object_t *, object_t *);
  */
 
 static object_t *command_giver_stack[1024];
+static object_t *command_giver_held[1024];	/* the object each entry holds a reference on */
 static object_t **cgsp = command_giver_stack;
 
 void save_command_giver (object_t * new_command_giver) {
-  if (cgsp >= EndOf (command_giver_stack))
+  if (cgsp >= EndOf (command_giver_stack) - 1)
     fatal ("*****Command giver stack overflow!");
 
   *(++cgsp) = command_giver;
+  command_giver_held[cgsp - command_giver_stack] = new_command_giver;
 
   if (new_command_giver)
     add_ref (new_command_giver, "save_command_giver");
@@ -76,11 +78,13 @@ void save_command_giver (object_t * new_command_giver) {
 }
 
 void restore_command_giver () {
-  if (command_giver)
-    free_object (command_giver, "restore_command_giver");
-
   if (cgsp == command_giver_stack)
     fatal ("*****Command giver stack underflow!");
+
+  /* release the object save_command_giver() referenced: the code in between may have changed command_giver
+   * (enable_commands() in another object) */
+  if (command_giver_held[cgsp - command_giver_stack])
+    free_object (command_giver_held[cgsp - command_giver_stack], "restore_command_giver");
 
   command_giver = *(cgsp--);
 }
